@@ -16,7 +16,7 @@ func init() {
 	register(&Prop{
 		ID:    "C31",
 		Level: "other",
-		Technique: "must-lockset on the gate word; condition-variable discipline (loop-guarded Wait, Broadcast after every enabling update) on the CFG; " +
+		Technique: "must-lockset on the gate word; may-lockset lock-order rule for every call chain that blocks at the gate; condition-variable discipline (loop-guarded Wait, Broadcast after every enabling update) on the CFG; " +
 			"finite-domain evaluation of the gate's masks, shifts and guards; must-pass-through path search for the poll-side enclosure and the rebalance add/unadd pairing; " +
 			"per-path token accounting of the channel mutexes (build tag synctests)",
 		Explanation: "GATE (pkg/kgo/consumer.go). (1) consumer.pollWaitState is read and written only with pollWaitMu held, only by the five gate functions; pollWaitC is created once, over &pollWaitMu, and is only used for Wait/Broadcast (never Signal) inside them. " +
@@ -26,6 +26,7 @@ func init() {
 			"(3) PollRecords: every take of buffered fetches (source.takeBuffered/takeNBuffered, the injected fake fetches) is preceded by waitAndAddPoller under the option; unaddPoller is called only from a deferred literal registered right after waitAndAddPoller and runs exactly when the returned slice is empty; " +
 			"the returned slice is only written inside the fill closure; every other non-empty return (error fetches) registers a poller immediately before; AllowRebalance / CloseAllowingRebalance / GroupTransactSession.AllowRebalance reach consumer.allowRebalance on all paths (before Close). " +
 			"Every waitAndAddRebalance* call site is followed on all non-panicking paths by unaddRebalance and every unaddRebalance is dominated by its add (that the revoke/lost callbacks run between the two is C07's clause 1). " +
+			"No blocking at the gate under a lock the other side needs (may-lockset: union at joins, deferred unlocks keep the lock to the exit, closure bodies inherit the lockset of their call/defer sites, `go` bodies start empty; locks identified by mutex field): the locks PollRecords acquires on its non-share path (derived, currently consumer.mu, sourcesReadyMu, groupConsumer.mu) are never possibly held at a call of waitAndAddRebalance* or of any function that synchronously reaches one (revoke, manageFailWait, abandonAssignment, setupAssignedAndHeartbeat, their callers ...); the locks acquired inside the add..unadd rebalance sections (derived, through synchronous callees) are never possibly held at a call of waitAndAddPoller or of a function that synchronously reaches it. " +
 			"XSYNC. (4) Without the tag xsync.Mutex/RWMutex are aliases of sync.Mutex/sync.RWMutex. With -tags synctests: the token channels (Mutex.ch, RWMutex.gate) are created with capacity 1 and one initial token, writerSignal with capacity 1 and none; all accesses of the tracked fields are in the known methods; readerCount is only touched with rw.mu held and rw.mu is unlocked on every exit (also before panics). " +
 			"Per method every control path is enumerated and replayed over readerCount in {0..3}: Lock/TryLock(true) end holding exactly one token, TryLock(false)/RLock/TryRLock end with the token returned, the reader is registered between taking and returning the gate token, Unlock/RWMutex.Unlock send exactly one token without blocking, writer Lock/TryLock drain writerSignal (non-blocking) after taking the gate and before reading readerCount, Lock waits on writerSignal exactly when readers are active and not while holding rw.mu, RUnlock signals (non-blocking) exactly when the count reaches zero. " +
 			"",
@@ -88,6 +89,7 @@ func runC31(c *Ctx) {
 				g.pollSide()
 				g.allowWiring()
 				g.rebalancePairing()
+				g.gateLockOrder()
 				g.explore()
 			}
 		}
@@ -1081,6 +1083,11 @@ func (g *c31gate) explore() {
 
 // c31aliases: the default build uses the standard library's mutexes.
 func c31aliases(c *Ctx, m *Module) {
+	if strings.Contains(m.Tags, "synctests") {
+		// the thorough tier re-runs the property with the tag as the base configuration:
+		// there the channel implementation is the one in use and c31xsync analyses it.
+		return
+	}
 	for _, n := range []string{"Mutex", "RWMutex"} {
 		obj := m.Object("xsync", n)
 		tn, _ := obj.(*types.TypeName)
